@@ -114,13 +114,15 @@ func calmEval(r *rec) string {
 		a.FromBytes(obj, r.before)
 	}
 	var out opOut
+	op := r.op
+	op.N = 0 // evaluated alone means: on a plain heap object
 	rt.CalmReset()
 	if libSpawns {
-		if why := rt.RunCalm(func() { callOp(a, r.op, obj, nil, &out, nil) }); why != "" {
+		if why := rt.RunCalm(func() { callOp(a, op, obj, nil, &out, nil) }); why != "" {
 			out.res = "abort:" + why
 		}
 	} else {
-		callOp(a, r.op, obj, nil, &out, nil)
+		callOp(a, op, obj, nil, &out, nil)
 	}
 	after := ""
 	if obj != nil {
